@@ -18,7 +18,7 @@ import (
 	"verif/internal/wx"
 )
 
-var suite = vrt.NewSuite("C05", "(path recipe, data tree): expressions are built through the public constructors from 1-5 fragments (root, at, bracket, child, nth with indexes -8..8, wildcard, descent, union with mixed/duplicate members, slice with bounds -9..9/unbounded and steps -3..3 incl. 0, filters with nested sub-paths and the fixed-semantics operators), each kind in first, inner and last position; data trees have arrays of length 0-6 and maps over a small key pool, as simple and as gen values. Get's result must equal the reference evaluator's selection: as a multiset always, as a sequence when the order is defined (no fan-out over a map with >=2 members, no descent). Non-trivial = reference result non-empty, or a slice/nth/union bound interacts with the array length (negative, out of range, empty range, step != 1); distinct = distinct (path, data)")
+var suite = vrt.NewSuite("C05", "(path recipe, data tree): expressions are built through the public constructors from 1-5 fragments (root, at, bracket, child, nth with indexes -8..8, wildcard, descent, union with mixed/duplicate members, slice with bounds -9..9/unbounded and steps -3..3 incl. 0, filters with nested sub-paths and the fixed-semantics operators), each kind in first, inner and last position; data trees have arrays of length 0-6 and maps over a small key pool, as simple and as gen values. plus exhaustive matrices: filter operands (17 shapes on either side of 6 comparisons), filter values (23 scalars against 23 constants under 6 comparisons, element or member, either side) and descents that start from several elements at once. Get's result must equal the reference evaluator's selection: as a multiset always, as a sequence when the order is defined (no fan-out over a map with >=2 members, no descent). Non-trivial = reference result non-empty, or a slice/nth/union bound interacts with the array length (negative, out of range, empty range, step != 1); distinct = distinct (path, data)")
 
 type Case struct {
 	Path jpx.Path `json:"path"`
